@@ -1,3 +1,137 @@
-(* suites added later (parser, printer, data encodings) plug in here *)
-let dispatch fail _bump _counts _note _sample (_f : string list) (line : string) =
-  fail "format" "unknown line kind" line
+(* parser / printer / data-encoding suites *)
+open Lc_model
+open Common
+
+let rec pos_of_int (n : int) : positive =
+  if n = 1 then XH else if n land 1 = 0 then XO (pos_of_int (n lsr 1)) else XI (pos_of_int (n lsr 1))
+let n_of_int (n : int) : n = if n = 0 then N0 else Npos (pos_of_int n)
+let rec int_of_pos = function XH -> 1 | XO p -> 2 * int_of_pos p | XI p -> 2 * int_of_pos p + 1
+let int_of_n = function N0 -> 0 | Npos p -> int_of_pos p
+
+(* "code:flags:digit" *)
+let parse_chars (s : string) : cchar list =
+  List.filter_map (fun x ->
+      if x = "" then None else
+        match String.split_on_char ':' x with
+        | [c; f; d] ->
+            let f = int_of_string f and d = int_of_string d in
+            Some { code = n_of_int (int_of_string c); is_alphabetic = f land 1 <> 0; is_alphanumeric = f land 2 <> 0;
+                   is_whitespace = f land 4 <> 0; to_digit16 = (if d < 0 then None else Some (nat_of_int d)) }
+        | _ -> failwith "char field") (String.split_on_char ' ' s)
+
+let codes_of_field (s : string) : int list =
+  List.filter_map (fun x -> if x = "" then None else
+                      match String.split_on_char ':' x with c :: _ -> Some (int_of_string c) | _ -> None)
+    (String.split_on_char ' ' s)
+
+let show_parse = function
+  | Inr t -> "ok " ^ ser t
+  | Inl (InvalidCharacter (i, c)) -> Printf.sprintf "err IC %d %d" (int_of_nat i) (int_of_n c)
+  | Inl InvalidExpression -> "err IE"
+  | Inl EmptyExpression -> "err EE"
+
+let is_prefix p s = String.length s >= String.length p && String.sub s 0 (String.length p) = p
+
+(* the std classification of the characters the printers emit must be what Spec.Printing.classify says *)
+let check_classify (chars : cchar list) line =
+  List.iter (fun (c : cchar) ->
+      let k = classify c.code in
+      if k.is_alphabetic <> c.is_alphabetic || k.is_alphanumeric <> c.is_alphanumeric
+         || k.is_whitespace <> c.is_whitespace || k.to_digit16 <> c.to_digit16 then
+        fail "corr:classify" (Printf.sprintf "std and Spec.Printing.classify differ on code %d" (int_of_n c.code)) line) chars
+
+let do_parse f line =
+  match f with
+  | [nota; chars; res] ->
+      let classic = (nota = "C") in
+      let cs = parse_chars chars in
+      if is_prefix "panic" res then fail "oracle:C09:panic" "parse panicked" line
+      else begin
+        let m = show_parse (parse cs (if classic then Classic else DeBruijn)) in
+        if m <> res then fail "corr:parse" ("model=" ^ m) line;
+        (match ref_parse classic cs with
+         | RefOk t ->
+             let e = "ok " ^ ser t in
+             if res <> e then fail "oracle:C09:reference-parse" ("the reference grammar accepts this input as " ^ ser t) line;
+             note_nontrivial ("parse " ^ nota ^ chars)
+         | RefBadStart (i, c) ->
+             let e = Printf.sprintf "err IC %d %d" (int_of_nat i) (int_of_n c) in
+             if res <> e then fail "oracle:C09:invalid-character" ("expected " ^ e) line;
+             bump counts "parse-badchar"
+         | RefErr ->
+             if not (is_prefix "err" res) then fail "oracle:C09:accepts-ill-formed" "the reference grammar rejects this input" line;
+             bump counts "parse-illformed");
+        if is_prefix "ok" res then (bump counts "parse-ok"; sample line)
+      end
+  | _ -> fail "format" "parse" line
+
+let do_same f line =
+  match f with
+  | [_; _; _; r0; r1] ->
+      if r0 <> r1 && not (is_prefix "err" r0 && is_prefix "err" r1) then
+        fail "oracle:C09:rendering-changes-result" "whitespace / glyph / redundant parentheses changed the result" line
+  | _ -> fail "format" "same" line
+
+let lam_of glyph = n_of_int (int_of_string glyph)
+
+let do_display f line =
+  match f with
+  | [glyph; ts; chars; res] when chars <> "panic" ->
+      let t = parse_term ts in
+      let lam = lam_of glyph in
+      let cs = parse_chars chars in
+      check_classify cs line;
+      let got = codes_of_field chars in
+      let model = List.map int_of_n (display lam t) in
+      if model <> got then fail "corr:display" "model Display differs" line;
+      let refp = List.map int_of_n (ref_print_cla lam t) in
+      if refp <> got then fail "oracle:C10:format" "Display differs from the reference rendering" line;
+      if (if !backslash then 92 else 955) <> int_of_string glyph then fail "oracle:C10:glyph" "LAMBDA does not follow the backslash_lambda feature" line;
+      if not (has_ud t) then begin
+        let e = "ok " ^ ser (canon t) in
+        if res <> e then fail "oracle:C10:roundtrip" ("expected " ^ e) line;
+        (* model parser on the model's own output *)
+        let m = show_parse (parse (List.map classify (display lam t)) Classic) in
+        if m <> e then fail "corr:display-roundtrip-model" ("model parse of model display = " ^ m) line
+      end;
+      note_nontrivial ("display " ^ ts); sample line
+  | _ -> fail "oracle:C10:panic" "Display panicked" line
+
+let do_debug f line =
+  match f with
+  | [glyph; ts; chars; res] when chars <> "panic" ->
+      let t = parse_term ts in
+      let lam = lam_of glyph in
+      let cs = parse_chars chars in
+      check_classify cs line;
+      let got = codes_of_field chars in
+      let model = List.map int_of_n (debug lam t) in
+      if model <> got then fail "corr:debug" "model Debug differs" line;
+      if (if !backslash then 92 else 955) <> int_of_string glyph then fail "oracle:C11:glyph" "LAMBDA does not follow the backslash_lambda feature" line;
+      if indices_in (nat_of_int 1) (nat_of_int 15) t then begin
+        let refp = List.map int_of_n (ref_print_dbr lam t) in
+        if refp <> got then fail "oracle:C11:format" "Debug differs from the reference rendering" line;
+        let e = "ok " ^ ser t in
+        if res <> e then fail "oracle:C11:roundtrip" ("expected " ^ e) line;
+        note_nontrivial ("debug " ^ ts)
+      end;
+      sample line
+  | _ -> fail "oracle:C11:panic" "Debug panicked" line
+
+let do_display_shift f line =
+  match f with
+  | [_; ts; res] ->
+      let t = parse_term ts in
+      let e = "ok " ^ ser (canon t) in
+      if res <> e then fail "oracle:C10:roundtrip-large-index" ("free indices shifted far away: expected " ^ e) line
+  | _ -> fail "format" "display-shift" line
+
+let dispatch (f : string list) (line : string) =
+  match f with
+  | "display-shift" :: r -> bump counts "display-shift"; do_display_shift r line
+  | "parse" :: r -> bump counts "parse"; do_parse r line
+  | "same" :: r -> bump counts "same"; do_same r line
+  | "deep" :: [d; ok] -> bump counts ("deep-" ^ d ^ "-" ^ ok)
+  | "display" :: r -> bump counts "display"; do_display r line
+  | "debug" :: r -> bump counts "debug"; do_debug r line
+  | _ -> fail "format" "unknown line kind" line
